@@ -190,3 +190,12 @@ def run(ctx):
             except Exception as ex:
                 okf = False
             ctx.check(okf, 'func_int_general:span', 'least-squares fit in a custom %s basis (%d functions, %d points) does not reproduce a function in its span' % (name, nb, npts))
+            # per-core sample points (2-D X with different rows)
+            X2 = np.array([np.sort(rng.uniform(-1, 1, size=npts)) for _ in range(d)])
+            Yv2 = [np.einsum('pj,rjq->rpq', basis(X2[k]).T, G) for k, G in enumerate(coefs)]
+            try:
+                A2 = teneva.func_int_general(Yv2, X2, basis)
+                ok2 = F.is_wellformed(A2, [nb] * d) and np.abs(F.dense(A2) - F.dense(coefs)).max() <= 1e-7 * (1 + np.abs(F.dense(coefs)).max())
+            except Exception:
+                ok2 = False
+            ctx.check(ok2, 'func_int_general:span', 'fit with per-core sample points (2-D X) in a custom %s basis does not reproduce a function in its span' % name)
